@@ -22,6 +22,18 @@ func main() {
 		workerMain()
 	case "check":
 		os.Exit(checkMain(os.Args[2:]))
+	case "units":
+		if len(os.Args) < 4 || props[os.Args[2]] == nil {
+			fmt.Fprintln(os.Stderr, "usage: gosym units <property> <tier>")
+			os.Exit(2)
+		}
+		us := props[os.Args[2]].Build(os.Args[3], 0)
+		if len(os.Args) > 4 {
+			for _, u := range us {
+				fmt.Println(u.ID)
+			}
+		}
+		fmt.Printf("%s %s: %d units\n", os.Args[2], os.Args[3], len(us))
 	case "replay":
 		os.Exit(replayMain(os.Args[2:]))
 	default:
